@@ -24,12 +24,15 @@ def _us_since_epoch(t):
     return (delta.days * 86400 + delta.seconds) * 10**6 + delta.microseconds
 
 
+_YDMS = D.DatetimeYdms(_c.Struct("year" / _c.Int32ub, "day_of_year" / _c.Int32ub, "milliseconds" / _c.Int32ub))
+
+
 def ydms_ok(year: int, doy: int, ms: int) -> bool:
     """
     pre: 2014 <= year <= 2049 and 1 <= doy <= 366 and 0 <= ms < 86400000
     post: _
     """
-    got = D.DatetimeYdms._decode(None, {"year": year, "day_of_year": doy, "milliseconds": ms}, None, None)
+    got = _YDMS._decode({"year": year, "day_of_year": doy, "milliseconds": ms}, None, None)
     return _us_since_epoch(got) == ((_days_from_civil(year, 1, 1) + doy - 1) * 86400000 + ms) * 1000
 
 
